@@ -88,16 +88,23 @@ def _check_graph(lab, i, desc, out):
         return sorted(k for k in nodes if G.pos_class(d['pos'][k]) == G.pos_class(pos)
                       and (pos in 'as' or d['pos'][k] == pos))
 
+    def strict(nodes, pos):
+        return sorted(k for k in nodes if d['pos'][k] == pos)
+
     for pos in (None, 'n', 'v', 'a', 's'):
+        # roots()/leaves() document "only synsets with the specified part of speech" while
+        # the implementation (and the property's quantifier) merge a and s: accept either.
         got = call(f'roots(pos={pos})', T.roots, w, pos)
         if got is not None:
             exp = of_pos(G.true_roots(g), pos)
-            if sorted(_names(idx, got), key=str) != exp:
+            names = sorted(_names(idx, got), key=str)
+            if names != exp and not (pos and names == strict(G.true_roots(g), pos)):
                 disc('roots-differ', f'roots(pos={pos})', exp, _names(idx, got))
         got = call(f'leaves(pos={pos})', T.leaves, w, pos)
         if got is not None and d['recip']:
             exp = of_pos(G.true_leaves(g), pos)
-            if sorted(_names(idx, got), key=str) != exp:
+            names = sorted(_names(idx, got), key=str)
+            if names != exp and not (pos and names == strict(G.true_leaves(g), pos)):
                 disc('leaves-differ', f'leaves(pos={pos})', exp, _names(idx, got))
         if pos is not None:
             got = call(f'taxonomy_depth(pos={pos})', T.taxonomy_depth, w, pos)
@@ -326,10 +333,10 @@ SUBS = [
                         'pos layout a fixed function of the edge mask); all ordered pairs',
         case_timeout=900, timeout_is_violation=True, sample=_sample, purge_every=8),
     Sub('drawn-n=4', oracle, _classify, strategy=_drawn_4,
-        budget={'quick': 13, 'thorough': 8},
+        budget={'quick': 40, 'thorough': 25},
         case_timeout=600, timeout_is_violation=True, sample=_sample, purge_every=8),
     Sub('random-n=5..8', oracle, _classify, strategy=_random_big,
-        budget={'quick': 10, 'thorough': 34},
+        budget={'quick': 30, 'thorough': 34},
         case_timeout=900, timeout_is_violation=True, sample=_sample, purge_every=8,
         require_tags=('family:dag', 'family:cyclic', 'family:forest', 'family:diamonds',
                       'family:layered')),
